@@ -30,7 +30,7 @@ type c10Case struct {
 	Pre int `json:"pre,omitempty"`
 }
 
-var c10ToggleNames = []string{"profile", "relative-validity", "absolute-validity", "manipulations", "imported-key", "csr-leaf", "nested+alias"}
+var c10ToggleNames = []string{"profile", "relative-validity", "absolute-validity", "manipulations", "imported-key", "csr-leaf", "nested+alias", "same-stem-two-suffixes"}
 var c10Answers = []string{"y\n", "n\n", "N\n", "\n", "", "yes\n", "x\n", "y", " y \n"}
 
 var c10Foreign = map[string]string{
@@ -97,11 +97,26 @@ func c10Build(hier int, toggles []int) (*Dir, map[string][]byte) {
 		}
 		d.Certs = append(d.Certs, cfg)
 	}
+	if has(7) {
+		d.Certs = append(d.Certs,
+			&refcfg.CertCfg{Path: "twins/twin.yaml", Alias: "twin-a", Subject: "CN=Twin A, O=C10", KeyAlg: "P-224"},
+			&refcfg.CertCfg{Path: "twins/twin.yml", Alias: "twin-b", Subject: "CN=Twin B, O=C10", KeyAlg: "P-224"})
+	}
 	if has(0) {
 		d.Profiles = append(d.Profiles, &refcfg.ProfileCfg{Path: "profiles/prof.yaml", Name: "prof", Validity: &refcfg.Validity{Duration: "1y6m"},
 			Exts: []refcfg.Ext{{Kind: refcfg.KSKI, SKI: refcfg.S("hash")}, {Kind: refcfg.KAKI, AKIHash: true}, {Kind: refcfg.KKU, Critical: refcfg.B(true), KU: refcfg.Strs("digitalSignature")}}})
 	}
 	return d, pre
+}
+
+// c10Twin marks classes seen in the world where two entities share one artifact file.
+func c10Twin(c *c10Case) string {
+	for _, t := range c.Toggles {
+		if t == 7 {
+			return " same-stem-two-suffixes"
+		}
+	}
+	return ""
 }
 
 func c10World(c *c10Case) (*Dir, *simfs.World) {
@@ -138,6 +153,8 @@ func c10Enumerate(tier string, yield func(any)) {
 			toggleSets = append(toggleSets, []int{a, b})
 		}
 	}
+	// two configurations with different aliases whose files differ only in the suffix (one artifact file)
+	toggleSets = append(toggleSets, []int{7})
 	if tier == "thorough" {
 		for a := 0; a < 7; a++ {
 			for b := a + 1; b < 7; b++ {
@@ -302,12 +319,12 @@ func c10Exec(x *engine.Ctx, cc any) {
 		for _, a := range planned {
 			pl[a] = true
 			if !changed[a] {
-				x.Violation("C10/planned-not-written/"+layer, fmt.Sprintf("%s: entity %s reported as generated but its file did not change", c10Desc(c), a))
+				x.Violation("C10/planned-not-written/"+layer+c10Twin(c), fmt.Sprintf("%s: entity %s reported as generated but its file did not change", c10Desc(c), a))
 			}
 		}
 		for a := range changed {
 			if !pl[a] {
-				x.Violation("C10/written-not-planned/"+layer, fmt.Sprintf("%s: artifact of %s rewritten without being reported", c10Desc(c), a))
+				x.Violation("C10/written-not-planned/"+layer+c10Twin(c), fmt.Sprintf("%s: artifact of %s rewritten without being reported", c10Desc(c), a))
 			}
 		}
 	}
